@@ -1,8 +1,11 @@
 package main
 
 import (
+	"crypto/sha256"
+	"encoding/hex"
 	"encoding/json"
 	"fmt"
+	"io"
 	"path"
 	"regexp"
 	"sort"
@@ -166,9 +169,24 @@ func (s *sys) Reset() error {
 	return nil
 }
 
+// key is the state identity: both node graphs and both cwds (hashed: the
+// explorer keeps every key in memory).
 func (s *sys) key(baseDump, refDump []string) string {
-	return strings.Join(baseDump, "\n") + "\ncwd=" + s.base.CurDir() + "\n--ref--\n" +
-		strings.Join(refDump, "\n") + "\ncwd=" + s.ref.CurDir()
+	h := sha256.New()
+
+	for _, l := range baseDump {
+		_, _ = io.WriteString(h, l+"\n")
+	}
+
+	_, _ = io.WriteString(h, "cwd="+s.base.CurDir()+"\n--ref--\n")
+
+	for _, l := range refDump {
+		_, _ = io.WriteString(h, l+"\n")
+	}
+
+	_, _ = io.WriteString(h, "cwd="+s.ref.CurDir())
+
+	return hex.EncodeToString(h.Sum(nil)[:16])
 }
 
 // pathOf is the path of a VerifDump line (directory lines end with "/").
